@@ -524,6 +524,14 @@ class Executor:
                 return True
             if obj.cls_set is not None and all(hasattr(c, attr) for c in obj.cls_set):
                 return True
+            if self.field_oracle is not None and attr not in obj.frozen_missing and getattr(obj, 'pslice', None) is not None:
+                try:
+                    v = self.field_oracle(self, obj, attr)
+                    obj.fields[attr] = v
+                    self.push_undo(lambda: obj.fields.pop(attr, None))
+                    return True
+                except KeyError:
+                    return False
             if obj.prov == 'fresh' or attr in obj.frozen_missing or getattr(obj, 'closed', False):
                 return False
             mf = getattr(obj, 'maybe_fields', {})
